@@ -13,6 +13,13 @@ CHECKS = {
              'Exhaustive over all 1-op and 2-op scripts of the complete opcode alphabet (thorough), model-steered deep scripts, byte-level mutations for the refusal clause. Held on the executions observed, not a proof.',
         note='trusted: ref/script.py (written from the BIPs, anchored on chain data), the native harness only records public fields of Instance/InterpreterEnv; signature opcodes are covered by C02',
         ref='5 C01'),
+    'C02': dict(
+        technique='runtime monitoring: lock-step reference-model monitor with transaction context; digests and multisig matching observed through captured log lines (ASan+UBSan build)',
+        text='Exploration: an independent signer builds transactions (1..4 inputs, all hash-type bytes, code separators, annex, FindAndDelete, multisig in/out of order, tapscript CHECKSIGADD chains and budgets) and signs them; '
+             'the real interpreter is stepped with that context and compared after every operation with the reference interpreter using reference ECDSA/BIP340 verification over reference legacy/BIP143/BIP341-342 digests; '
+             'the digest each signature opcode actually computed and the per-signature accept/reject sequence of CHECKMULTISIG are compared as well; every corruption must be rejected with the error the active flags select.',
+        note='trusted: ref/secp.py, ref/sighash.py, ref/verify.py (anchored on the six doc/txs chain pairs and BIP340 vector 0); Schnorr contexts are single-input (known finding for multi-input)',
+        ref='5 C02'),
     'C04': dict(
         technique='runtime monitoring: relational (paired-run) monitor over step/rewind command histories, complete history trees (ASan+UBSan build)',
         text='Exploration with complete enumeration of the {step,rewind} history tree to depth 10 (quick) / 12 (thorough) for short scripts and random hovering walks for long ones: after every command the complete observable state '
